@@ -6,7 +6,7 @@ package lorom
 
 //@ func BusAddressToPak
 //@   params busAddr
-//@   property C05
+//@   property C05 C11
 //@   requires busAddr < 0x1000000
 //@   ensures (err == nil) == mapspec.LoROMOk(busAddr)
 //@   ensures err == nil ==> pakAddr == mapspec.LoROMPak(busAddr)
